@@ -528,7 +528,7 @@ Lemma step_core s o s' : sm_step s o = Ok s' -> step_safe s o ->
   exists s1, slog s1 = slog s /\ (forall m, seg m s1 s') /\
              (forall m, ev_run (sys_state s m) (evs_of m (op_events s o)) = Some (sys_state s1 m)).
 Proof.
-  intros H Hsafe. destruct o as [n u|n| | |g p|].
+  intros H Hsafe. destruct o as [n u|n| | |g p| |n|n|n].
   - (* add *)
     rewrite sm_step_add in H. apply lc_bind_ok in H. destruct H as (s2 & H2 & H3).
     exists (add_pre s n u). split; [reflexivity|]. split.
@@ -571,6 +571,15 @@ Proof.
   - (* teardown *)
     exists s. split; [reflexivity|]. split; [|reflexivity].
     rewrite sm_step_teardown in H. eapply teardown_seg; [exact Hsafe|exact H].
+  - (* the user pauses a system *)
+    exists s. split; [reflexivity|]. split; [|reflexivity].
+    exact (transition_seg _ _ _ _ _ _ (eq_refl : ok_call Active CbPause (Some Paused)) H).
+  - (* ... resumes it *)
+    exists s. split; [reflexivity|]. split; [|reflexivity].
+    exact (transition_seg _ _ _ _ _ _ (eq_refl : ok_call Paused CbResume (Some Active)) H).
+  - (* ... stops it *)
+    exists s. split; [reflexivity|]. split; [|reflexivity].
+    exact (transition_seg _ _ _ _ _ _ (eq_refl : ok_call Paused CbStop (Some Stopped)) H).
 Qed.
 
 Lemma step_log_grows s o s' : sm_step s o = Ok s' -> step_safe s o -> exists d, slog s' = d ++ slog s.
@@ -687,7 +696,7 @@ Definition is_teardown (o : sop) : bool := match o with STeardown => true | _ =>
 
 Lemma inv_step s o s' : Inv s -> is_teardown o = false -> sm_step s o = Ok s' -> Inv s'.
 Proof.
-  intros HI Ho H. destruct o as [n u|n| | |g p|]; [| | | | |discriminate].
+  intros HI Ho H. destruct o as [n u|n| | |g p| |n|n|n]; [| | | | |discriminate| | |].
   - (* add: the name is fresh, otherwise create would have thrown *)
     rewrite sm_step_add in H. apply lc_bind_ok in H. destruct H as (s2 & H2 & H3).
     assert (Hf : find_sys (infos s) n = None).
@@ -722,6 +731,9 @@ Proof.
     rewrite sm_step_update in H. destruct (negb (was_init s)); [inversion H; subst; exact HI|].
     eapply Keep_Inv; [exact HI|]. eapply (fold_keep upd_body upd_body_keep); exact H.
   - rewrite sm_step_setgroup in H. inversion H; subst. exact HI.
+  - eapply Keep_Inv; [exact HI|]. eapply transition_keep; [exact H|discriminate].
+  - eapply Keep_Inv; [exact HI|]. eapply transition_keep; [exact H|discriminate].
+  - eapply Keep_Inv; [exact HI|]. eapply transition_keep; [exact H|discriminate].
 Qed.
 
 (* ------------------------------------------------------------------------------------------------------------ *)
@@ -858,7 +870,7 @@ Theorem absent_step s o s' n :
 Proof.
   intros Hn Ho H. destruct (step_core true _ _ _ H (step_safe_lax s o)) as (s1 & L1 & Sg & Hop).
   assert (He : evs_of n (op_events s o) = []).
-  { destruct o as [m u|m| | |g p|]; try reflexivity.
+  { destruct o as [m u|m| | |g p| |m|m|m]; try reflexivity.
     - unfold evs_of. simpl. destruct (Nat.eqb_spec m n) as [E|E]; [|reflexivity]. subst. exfalso. eapply Ho. reflexivity.
     - simpl. destruct (find_sys (infos s) m) eqn:Ef; [|reflexivity]. unfold evs_of. simpl.
       destruct (Nat.eqb_spec m n) as [E|E]; [|reflexivity]. subst. unfold sys_state in Hn. rewrite Ef in Hn. discriminate. }
@@ -975,10 +987,12 @@ Proof.
   apply place_all_err in H. destruct H as [H|H]; inversion H; reflexivity.
 Qed.
 
-Theorem invalid_state_only_on_double_add s o :
+Definition user_call (o : sop) : bool := match o with SPause _ | SResume _ | SStop _ => true | _ => false end.
+
+Theorem invalid_state_only_on_double_add s o : user_call o = false ->
   sm_step s o = Err (Throw 10) -> exists n u q, o = SAdd n u /\ sys_state s n = Some q /\ q <> Uninit.
 Proof.
-  intros H. destruct o as [n u|n| | |g p|].
+  intros Hu H. destruct o as [n u|n| | |g p| |n|n|n]; try discriminate Hu.
   - exists n, u. rewrite sm_step_add in H. apply bind_err in H. destruct H as [H|(s2 & H2 & H)].
     + apply transition_throw in H. destruct H as (q & Hq & Hne). exists q. split; [reflexivity|]. split; [|exact Hne].
       rewrite sys_state_eq in *. simpl in Hq. unfold lst in *. rewrite find_sys_app in Hq.
